@@ -30,6 +30,8 @@ type tgen struct {
 	r     *gen.Rng
 	depth int
 	n     int
+	// bigUint: a `uint` (64 bits here) holding a value of 2^63 or more was generated (finding D23)
+	bigUint bool
 }
 
 var scalarTypes = []reflect.Type{
@@ -138,6 +140,13 @@ func (g *tgen) fill(v reflect.Value, depth int) {
 		v.SetInt(int64(g.r.Intn(5)) - 1)
 	case reflect.Uint, reflect.Uint8, reflect.Uint16, reflect.Uint32:
 		v.SetUint(uint64(g.r.Intn(4)))
+		if v.Kind() == reflect.Uint && v.Type().Size() == 8 {
+			// (own stream: the other draws stay as they were)
+			if br := g.r.Fork(424_242); br.Chance(2) {
+				v.SetUint(gen.Pick(br, []uint64{1 << 63, 1<<63 + 5, 1<<64 - 1}))
+				g.bigUint = true
+			}
+		}
 	case reflect.Float32, reflect.Float64:
 		v.SetFloat(gen.Pick(g.r, []float64{0, 1, 0.5, -1.25, 2, 1024.5, 0.1, 1e-7, 16777217}))
 	case reflect.String:
@@ -383,6 +392,7 @@ func domRfl(r *gen.Rng, n int, thorough bool, o *Out) {
 	for i := 0; i < n; i++ {
 		cr := r.Fork(uint64(i))
 		g.r = cr
+		g.bigUint = false
 		var ptr reflect.Value
 		if cr.Chance(10) {
 			w := &withCustom{A: customMarshal{cr.Intn(3)}, Q: gen.Pick(cr, []string{"", "q"})}
@@ -455,6 +465,16 @@ func domRfl(r *gen.Rng, n int, thorough bool, o *Out) {
 		sig := fmt.Sprintf("type=%s json=%s", typeDesc, wantS)
 		if res != "ok" {
 			o.Fail("C18", "reflect/wrap-succeeds", res+" "+lastPanic, "reflect/wrap-succeeds "+sig, "rfl:"+sig)
+			continue
+		}
+		if g.bigUint {
+			// finding D23: valueReflect.AsInt converts a uint with int64(...): 2^63 and above wrap to negative
+			// numbers, encoding/json writes the positive number. Only this clause is judged for such a case.
+			if gotS != wantS {
+				o.Fail("C18", "reflect/structure-equals-json-round-trip", "reflected "+gotS+" json "+wantS, "reflect/structure-equals-json-round-trip/D23-uint-above-int64 "+sig, "rfl:"+sig)
+			}
+			o.Tag("rfl:uint-above-int64")
+			o.Cases++
 			continue
 		}
 		if gotS != wantS {
@@ -540,6 +560,11 @@ func domRfl(r *gen.Rng, n int, thorough bool, o *Out) {
 		safe(func() string {
 			ptr2 := reflect.New(ptr.Type().Elem())
 			g.fill(ptr2.Elem(), 3)
+			if g.bigUint {
+				// finding D23 is judged on single values only
+				g.bigUint = false
+				return ""
+			}
 			if cr.Chance(30) {
 				ptr2.Elem().Set(ptr.Elem())
 			}
